@@ -14,7 +14,7 @@ from .core import BudgetExceeded, rng, sunk_stdout
 from .intr import exc_info_in_tree
 
 SIM_PATH = '/simfs/ballots.blt'
-WALL_LIMIT = 20        # seconds per evaluation before the deterministic step budget is consulted
+WALL_LIMIT = 6         # seconds per evaluation (reads take milliseconds) before the step budget is consulted
 
 
 class Hang(BaseException):
@@ -91,7 +91,9 @@ def gen_bases(R, seed, tier, count, size_cap):
         rnd = rng(seed, 'disk-base', i)
         rule = gen.RULES[i % len(gen.RULES)]
         r = rnd.random()
-        if r < 0.04:
+        if i < 3:
+            e = wide_election(rnd, (255, 256, 257)[i])      # array typecode boundary, always present
+        elif r < 0.03:
             e = wide_election(rnd, rnd.choice((255, 256, 257)))
         else:
             # the parser does not care about the rule: offer every syntax feature whatever the rule,
@@ -354,7 +356,13 @@ def evaluate(R, data, io_fault=None, entry='path', clock=False):
     except Hang:
         signal.setitimer(signal.ITIMER_REAL, 0)
         if clock:
-            res['outcome'] = 'slow'
+            # second wall-clock alarm, this time under the step clock without the budget being reached: the
+            # reader is stuck inside a single package line (e.g. catastrophic regex backtracking in C code)
+            res['outcome'] = 'hang'
+            res['viol'].append(dict(cls='hang', exc=None, frame=None, line_text='stuck-in-one-line',
+                                    msg='reading %d bytes ran into the %ds wall-clock limit twice while the step '
+                                        'clock stood at %d line events (stuck inside one line)' % (
+                                            len(data), WALL_LIMIT, res.get('steps', 0))))
             return res
         # consult the deterministic step budget
         r2 = evaluate(R, data, io_fault, entry, clock=True)
@@ -483,7 +491,12 @@ def work_enumerate(R, seed, base_name, base, part, nparts):
         if j % nparts != part:
             continue
         data = simfs.apply_faults(base, faults)
+        if acc['probes'].get('hangs', 0) >= 3:
+            acc['probes']['skipped_after_hangs'] = acc['probes'].get('skipped_after_hangs', 0) + 1
+            continue
         res = evaluate(R, data, io, 'path', clock=(j % 97 == 0))
+        if res['outcome'] == 'hang':
+            acc['probes']['hangs'] = acc['probes'].get('hangs', 0) + 1
         kinds = [f[0] for f in faults]
         _account(acc, kinds, io, res, data != base or bool(io), len(data))
         for v in res['viol']:
@@ -495,11 +508,23 @@ def work_enumerate(R, seed, base_name, base, part, nparts):
     return acc
 
 
-def work_sequences(R, seed, bases, first, count):
+def work_sequences(R, seed, bases, first, count, realfs=0.0):
     "sequence arm: runs first..first+count-1, each a seeded sequence of 1-6 mixed faults on a seeded base"
+    import shutil       # pylint: disable=import-outside-toplevel
+    import tempfile     # pylint: disable=import-outside-toplevel
     signal.signal(signal.SIGALRM, _alarm)
     acc = new_acc()
     nb = len(bases)
+    scratch = tempfile.mkdtemp(prefix='droop-c16-realfs-') if realfs > 0 else None
+    try:
+        _work_sequences(R, seed, bases, first, count, realfs, scratch, acc, nb)
+    finally:
+        if scratch:
+            shutil.rmtree(scratch, ignore_errors=True)
+    return acc
+
+
+def _work_sequences(R, seed, bases, first, count, realfs, scratch, acc, nb):
     for i in range(first, first + count):
         rnd = rng(seed, 'disk', i)
         bi = rnd.randrange(nb)
@@ -518,7 +543,12 @@ def work_sequences(R, seed, bases, first, count):
             data = simfs.apply_fault(data, f, aux)
         io = rnd.choice(IO_FAULTS) if rnd.random() < 0.03 else None
         entry = 'data' if rnd.random() < 0.25 else 'path'
+        if acc['probes'].get('hangs', 0) >= 3:
+            acc['probes']['skipped_after_hangs'] = acc['probes'].get('skipped_after_hangs', 0) + 1
+            continue
         res = evaluate(R, data, io, entry, clock=(rnd.random() < 0.03))
+        if res['outcome'] == 'hang':
+            acc['probes']['hangs'] = acc['probes'].get('hangs', 0) + 1
         kinds = [f[0] for f in faults]
         _account(acc, kinds, io, res, data != base or bool(io), len(data))
         if data == base and not io:
@@ -530,7 +560,49 @@ def work_sequences(R, seed, bases, first, count):
         if i == first and not acc['samples']:
             acc['samples'].append(dict(run=i, base=base_name, faults=faults, io_fault=io, entry=res['entry'],
                                        outcome=res['outcome'], message=res.get('msg'), bytes_after=len(data)))
-    return acc
+        if scratch and rnd.random() < realfs and len(data) < 200_000:
+            agree, detail = realfs_crosscheck(R, data, io, scratch)
+            pr = acc['probes']
+            if agree is None:
+                pr['realfs_not_applicable'] = pr.get('realfs_not_applicable', 0) + 1
+            elif agree:
+                pr['realfs_agree'] = pr.get('realfs_agree', 0) + 1
+            else:
+                pr['realfs_DISAGREE'] = pr.get('realfs_DISAGREE', 0) + 1
+                acc.setdefault('stub_disagreements', []).append(dict(run=i, detail=detail))
+
+
+def realfs_crosscheck(R, data, io, scratch):
+    """read the same bytes through the builtin open() from a real file; (agree?, detail)
+
+    Only faults a real file system can be asked for without privileges: none, ENOENT, EISDIR.
+    """
+    import os       # pylint: disable=import-outside-toplevel
+    PE = R.droop.profile.ElectionProfileError
+    path = os.path.join(scratch, 'ballots.blt')
+    if io == 'ENOENT':
+        path = os.path.join(scratch, 'missing.blt')
+    elif io == 'EISDIR':
+        path = scratch
+    elif io is None:
+        with open(path, 'wb') as f:
+            f.write(data)
+    else:
+        return None, 'not reproducible on a real file system'
+    sim = evaluate(R, data, io, 'path')
+
+    def norm(m):
+        return re.sub(r"'[^']*'", "'_'", re.sub(r'ballot file \S+', 'ballot file _', m or ''))
+    try:
+        R.droop.profile.ElectionProfile(path=path)
+        real = ('accepted', None)
+    except PE as e:
+        real = ('profile-error', norm(norm_msg(str(e))))
+    except BaseException as e:      # pylint: disable=broad-except
+        real = ('foreign', type(e).__name__)
+    simo = (sim['outcome'], norm(sim.get('msg')) if sim['outcome'] == 'profile-error' else
+            (sim['viol'][0].get('exc') if sim['outcome'] == 'foreign' and sim['viol'] else None))
+    return simo == real, dict(sim=simo, real=real)
 
 
 def work_faultfree(R, bases):
